@@ -11,7 +11,8 @@ COL_WIDTH = 6.25  # default portrait col_width (8.5 - 2.25)
 
 def make_table(heights, groups=None, *, ndata=2, fonts=None, sizes=None, subline=None, page_by_levels=0,
                new_page=False, pageby_row=None, pageby_header=None, header="explicit", footnote=None, source=None,
-               nrow=10, placements=None, tall_cols=None, title=False, group_first=True, rel_widths=None, shared=None):
+               nrow=10, placements=None, tall_cols=None, title=False, group_first=True, rel_widths=None, shared=None,
+               reverse_group_cols=False):
     """Deterministic builder.
     heights: list of target line counts per row.
     groups: list (one per page_by level) of per-row values; subline: per-row values or None.
@@ -60,7 +61,9 @@ def make_table(heights, groups=None, *, ndata=2, fonts=None, sizes=None, subline
                 t = tag
             data_cols[j]["values"].append(t)
         real_heights.append(hk)
-    cols = (gcols + scols + data_cols) if group_first else (data_cols + gcols + scols)
+    # the stored column order of the key columns need not follow the page_by order
+    stored_g = list(reversed(gcols)) if reverse_group_cols else gcols
+    cols = (stored_g + scols + data_cols) if group_first else (data_cols + stored_g + scols)
     order_names = [c["name"] for c in cols]
     if levels:
         body["page_by"] = [c["name"] for c in gcols]
@@ -227,6 +230,6 @@ def pag_recipe(draw, *, fonts=False, strategies=("plain", "page_by", "page_by_ne
                      new_page=new_page, pageby_row=pbr, pageby_header=pbh, header=header, footnote=footnote,
                      source=source, nrow=nrow, placements=pl, title=draw(st.booleans()),
                      tall_cols=[draw(st.integers(0, 2)) for _ in range(n)], group_first=draw(st.booleans()),
-                     rel_widths=rel, shared=shared)
+                     rel_widths=rel, shared=shared, reverse_group_cols=(levels >= 2 and draw(st.integers(0, 9)) < 3))
     rec["strategy"] = strat
     return rec
